@@ -2113,6 +2113,16 @@ class Recipe:
         return not isinstance(declared, Plate) or \
             (declared.row_names, declared.column_names) != (obj.row_names, obj.column_names)
 
+    def _declared_name(self, obj: Container | Plate) -> str:
+        """
+        The name the steps know an object by: bake returns a container that a dilute step renamed under its new name.
+        """
+        if self.locked:
+            for declared, new_name in self.new_names.items():
+                if new_name == obj.name:
+                    return declared
+        return obj.name
+
     def uses(self, *args: Container | Plate | Iterable[Container | Plate]) -> Recipe:
         """
         Declare *args (iterable of Containers and Plates) as being used in the recipe.
@@ -2779,9 +2789,9 @@ class Recipe:
             dest_names = set(elem.name for elem in self.results.values() if isinstance(elem, Plate))
         elif isinstance(destinations, Iterable):
             for container in destinations:
-                if container.name not in self.used:
+                if self._declared_name(container) not in self.used:
                     raise ValueError(f"Destination {container.name} was not used in the recipe.")
-                dest_names.add(container.name)
+                dest_names.add(self._declared_name(container))
         else:
             raise ValueError("Invalid destinations.")
 
@@ -2870,28 +2880,29 @@ class Recipe:
         if timeframe not in self.stages.keys():
             raise ValueError("Invalid Timeframe")
         steps = self.steps[self.stages[timeframe]]
+        name = self._declared_name(container)
         flows = {"in": 0, "out": 0}
         if isinstance(container, Plate):
             flows = {"in": np.zeros(container.wells.shape), "out": np.zeros(container.wells.shape)}
         for step in steps:
-            if container.name in step.objects_used:
-                if isinstance(step.to[0], Container) and step.to[0].name == container.name:
+            if name in step.objects_used:
+                if isinstance(step.to[0], Container) and step.to[0].name == name:
                     if step.trash:
                         flows["out"] += sum(map(helper, step.trash.items()))
                     else:
                         flows["in"] += (sum(map(helper, step.to[1].contents.items())) -
                                         sum(map(helper, step.to[0].contents.items())))
-                if isinstance(step.to[0], Plate) and step.to[0].name == container.name:
+                if isinstance(step.to[0], Plate) and step.to[0].name == name:
                     # per well: what a well gained entered it, what it lost (a remove step) left it
                     vfunc = np.vectorize(plate_helper, otypes=[float])
                     delta = vfunc(step.to[1].wells) - vfunc(step.to[0].wells)
                     flows["in"] += np.maximum(delta, 0)
                     flows["out"] += np.maximum(-delta, 0)
-                if isinstance(step.frm[0], Container) and step.frm[0].name == container.name:
+                if isinstance(step.frm[0], Container) and step.frm[0].name == name:
                     flows["out"] += (sum(map(helper, step.frm[0].contents.items())) -
                                      sum(map(helper, step.frm[1].contents.items())))
-                if isinstance(step.frm[0], Plate) and step.frm[0].name == container.name and \
-                        not (isinstance(step.to[0], Plate) and step.to[0].name == container.name):
+                if isinstance(step.frm[0], Plate) and step.frm[0].name == name and \
+                        not (isinstance(step.to[0], Plate) and step.to[0].name == name):
                     # (a transfer within one plate is already counted per well above)
                     vfunc = np.vectorize(plate_helper, otypes=[float])
                     flows["out"] += vfunc(step.frm[0].wells) - vfunc(step.frm[1].wells)
@@ -2937,10 +2948,11 @@ class Recipe:
         if mode == 'after':
             steps = reversed(steps)
 
+        name = self._declared_name(container)
         query_container = None
         for step in steps:
-            if container.name in step.objects_used:
-                if step.to[0].name == container.name:
+            if name in step.objects_used:
+                if step.to[0].name == name:
                     if mode == 'after':
                         query_container = step.to[1]
                     else:
